@@ -34,10 +34,20 @@ func (e *Engine) observablesOf(fr *Frame, st *State) []NamedTerm {
 			return
 		}
 		switch {
-		case t.S == IntSort || t.S == BoolSort:
+		case t.S == IntSort || t.S == BoolSort || t.S == StrSort:
 			out = append(out, NamedTerm{name, t})
 		case t.S.IsSlice():
 			out = append(out, NamedTerm{"len(" + name + ")", Acc(t, "len")})
+			if es := t.S.Fields[0].S.V; es.Kind == SData && !es.IsSlice() && !es.IsMap() {
+				for i := 0; i < 4; i++ {
+					el := Select(Acc(t, "arr"), IntLit(int64(i)))
+					for _, f := range es.Fields {
+						if f.S == IntSort || f.S == BoolSort || f.S == StrSort {
+							out = append(out, NamedTerm{fmt.Sprintf("%s[%d].%s", name, i, f.Name), Acc(el, f.Name)})
+						}
+					}
+				}
+			}
 		case t.S.IsMap():
 			out = append(out, NamedTerm{"len(" + name + ")", Acc(t, "card")})
 		}
@@ -83,7 +93,7 @@ func (e *Engine) observablesOf(fr *Frame, st *State) []NamedTerm {
 	return out
 }
 
-var valRe = regexp.MustCompile(`\(\s*(obs!\d+)\s+((?:\(-\s*\d+\))|-?\d+|true|false)\s*\)`)
+var valRe = regexp.MustCompile(`\(\s*(obs!\d+)\s+((?:\(-\s*\d+\))|-?\d+|true|false|Str!val!\d+)\s*\)`)
 
 // modelValues re-solves a refuted obligation asking for the observables; slice lengths are
 // first bounded (small inputs replay better), then unbounded.
@@ -91,7 +101,12 @@ func modelValues(o *Obligation, hyps []*Term) map[string]string {
 	if len(o.Obs) == 0 {
 		return nil
 	}
-	for _, bound := range []int64{4096 * 16, 1 << 40, -1} {
+	obs := append([]NamedTerm(nil), o.Obs...)
+	for lit, sym := range strLitRegistry {
+		obs = append(obs, NamedTerm{"lit:" + lit, sym})
+	}
+	o.Obs = obs
+	for pass, bound := range []int64{4096 * 16, 4096 * 16, 1 << 40, -1} {
 		var extra []*Term
 		var b strings.Builder
 		for i, nt := range o.Obs {
@@ -99,6 +114,10 @@ func modelValues(o *Obligation, hyps []*Term) map[string]string {
 			extra = append(extra, Eq(Var(nm, nt.T.S), nt.T))
 			if bound > 0 && strings.HasPrefix(nt.Name, "len(") {
 				extra = append(extra, Le(nt.T, IntLit(bound)))
+			}
+			if pass == 0 && nt.T.S == IntSort && !strings.HasPrefix(nt.Name, "len(") {
+				// first try small scalars everywhere (smallest counterexamples replay best)
+				extra = append(extra, And(Le(IntLit(-8), nt.T), Le(nt.T, IntLit(64))))
 			}
 			b.WriteString(nm + " ")
 		}
@@ -116,6 +135,25 @@ func modelValues(o *Obligation, hyps []*Term) map[string]string {
 			fmt.Sscanf(m[1], "obs!%d", &idx)
 			val := strings.NewReplacer("(", "", ")", "", " ", "").Replace(m[2])
 			vals[o.Obs[idx].Name] = val
+		}
+		// abstract string values -> the literal they equal (if any)
+		rev := map[string]string{}
+		for k, v := range vals {
+			if strings.HasPrefix(k, "lit:") {
+				rev[v] = strings.TrimPrefix(k, "lit:")
+			}
+		}
+		for k, v := range vals {
+			if strings.HasPrefix(v, "Str!val!") && !strings.HasPrefix(k, "lit:") {
+				if l, ok := rev[v]; ok {
+					vals[k] = "str:" + l
+				}
+			}
+		}
+		for k := range vals {
+			if strings.HasPrefix(k, "lit:") {
+				delete(vals, k)
+			}
 		}
 		return vals
 	}
@@ -159,6 +197,9 @@ func runReplay(rec map[string]interface{}, o *Obligation) {
 }
 
 var replayRepo = "/repo"
+
+// strLitRegistry: string literal -> its SMT symbol (filled by the engine)
+var strLitRegistry = map[string]*Term{}
 
 // execReplay injects src as zz_replay_test.go into pkg via -overlay and runs it.
 func execReplay(repo, pkg, tags, src string) (string, string) {
